@@ -19,6 +19,7 @@ Definition dispatch (line : bytes) : bytes :=
     else if beqb cmd B"enum" then run_enum args
     else if beqb cmd B"rules" then run_rules args
     else if beqb cmd B"plain" then run_plain args
+    else if beqb cmd B"jlen" then run_jlen args
     else bad_case
   | [] => bad_case
   end.
